@@ -171,6 +171,12 @@ func OwnLayers(n *gen.Node) []Layer {
 		out = []Layer{g, withStack(lib + fn), leafError}
 	case "oldfmtelide":
 		out = []Layer{harnessL("*gen.OldFmtElideWrap")}
+	case "safemsgwrap":
+		out = []Layer{harnessL("*gen.SafeMsgWrap")}
+	case "keymarkwrap":
+		l := harnessL("*gen.KeyMarkWrap")
+		l.Ext = gen.OneLine(S[1])
+		out = []Layer{l}
 	case "fmtargleaf":
 		out = []Layer{harnessL("*gen.FmtArgLeaf")}
 	case "domainraw":
@@ -416,7 +422,7 @@ func Text(n *gen.Node) string {
 	case "newfew":
 		return S[0] + " " + h(0) + " " + S[1] + " " + k(0)
 	case "goerr", "new", "pkgnew", "nofmtleaf", "fmtleaf", "unimpl", "domnew", "gstatus",
-		"oldfmtleaf", "fmtrleaf", "ncleaf", "isleaf", "hdleaf", "lowleaf", "asleaf", "stacksafeleaf", "elidewrap", "handledmsg", "unimpld", "oldfmtelide":
+		"oldfmtleaf", "fmtrleaf", "ncleaf", "isleaf", "hdleaf", "lowleaf", "asleaf", "stacksafeleaf", "elidewrap", "handledmsg", "unimpld", "oldfmtelide", "safemsgwrap":
 		return S[0]
 	case "newf":
 		return S[1] + " " + S[0] + " " + S[2]
@@ -433,7 +439,7 @@ func Text(n *gen.Node) string {
 	case "wrap", "withmsg", "gstatuswrap":
 		return pfx(S[0])
 	case "pkgmsg", "nofmtwrap", "aswrap", "fmtwrap", "goerrorf", "pkgwrap", "causewrap", "oldfmtwrap", "fmtrwrap",
-		"lowwrap", "syscallerr", "hdwrap", "ncwrap":
+		"lowwrap", "syscallerr", "hdwrap", "ncwrap", "keymarkwrap":
 		return S[0] + ": " + k(0)
 	case "wrapf", "withmsgf":
 		return S[0] + " " + S[1] + ": " + k(0)
